@@ -14,6 +14,7 @@ import numpy as np
 import common
 import games
 import translate
+import translate_ids
 
 RULE = ("operators: every coalition id a < 2^n for n = 1..10 with every player p < n (object operators &,|,-,+,in with a "
         "player, inverted, grand_coalition, player_to_coalition) and every ordered pair (a,b) < 2^n for n <= 5 (quick) / "
@@ -49,6 +50,7 @@ DEFAULT_TOL = 1e-10
 
 def regen(ctx):
     translate.regen_all()
+    translate_ids.regen_coalition_ids()
 
 
 def viol(ctx, what, rep, found_input=True):
